@@ -643,7 +643,7 @@ pub open spec fn call_frame(a: VM, b: VM) -> bool { frame(a, b) && a.ops == b.op
                 }
 //@   >>>
 // the state the module body starts in (an obligation inside the body: `run` itself is outside the unit)
-//@   before "decorate_call!(pos => vm.run(env))?;" <<<
+//@   before "decorate_call!(pos => vm.run(env))?;" nth 1 <<<
                 assert(module_body_start(*old(self), vm, base, ov, *ptr, *result_ptr, *pkg_ptr));
 //@   >>>
 //@   mutant copy_value_pos_is_name_pos "let val_pos = override_pos_list[counter].1.clone(); self.merge_field_into_tuple( &mut flds, &mut pos_list," => "let val_pos = override_pos_list[counter].0.clone(); self.merge_field_into_tuple( &mut flds, &mut pos_list," expect op_copy
@@ -653,7 +653,7 @@ pub open spec fn call_frame(a: VM, b: VM) -> bool { frame(a, b) && a.ops == b.op
 //@   mutant module_pkg_misnamed "\"pkg\".v_into()" => "\"package\".v_into()" expect op_copy
 //@   mutant module_body_runs_callers_code "let mut vm = self .clean_copy() .to_new_pointer(ptr.clone())" => "let mut vm = self .clean_copy() .to_new_pointer(self.ops.clone())" expect op_copy
 //@   mutant module_sees_callers_bindings "vm.push(Rc::new(S(\"mod\".v_into())), pos.clone())?;" => "vm.symbols = Stack { curr: self.symbols.curr.clone() }; vm.push(Rc::new(S(\"mod\".v_into())), pos.clone())?;" expect op_copy
-//@   mutant module_result_left_in_child "self.push(result_val, result_pos)?;" => "vm.push(result_val, result_pos)?;" expect op_copy
+//@   mutant module_result_left_in_child "self.push(result_val, pos)?;" => "vm.push(result_val, pos)?;" expect op_copy
 //@ end
 
 } // verus!
